@@ -312,6 +312,33 @@ func TestC05Generated(t *testing.T) {
 		return
 	}
 
+	// The thorough tier is spread over worker processes (interpreter runs are
+	// serialised inside one process). Each worker takes every shards-th snippet of
+	// the sweep and 1/shards of the random and generator programs, from PRNG streams
+	// of its own. The quick tier runs in this process with the unsuffixed streams.
+	shard, shards, sharded := shardOf(t, "FMT5_GEN_SHARD")
+	if !sharded && vh.Tier() == "thorough" {
+		w := shardWorkers()
+		runShards(t, r, env.Arena, "", "TestC05Generated", "FMT5_GEN_SHARD", 2*w, w)
+
+		if r.Counters["sources.accepted"] == 0 {
+			t.Fatal("observed nothing")
+		}
+
+		if err := r.Write(); err != nil {
+			t.Fatal(err)
+		}
+
+		return
+	}
+
+	sfx := ""
+	if shards > 1 {
+		sfx = fmt.Sprintf("#%d", shard)
+	}
+
+	share := func(n int) int { return (n + shards - 1) / shards }
+
 	evalCase := func(origin string, sn []Snippet, base string, sl []Slot, pick []int, full bool) {
 		S, inserted := base, []Inserted(nil)
 		if len(pick) > 0 {
@@ -381,8 +408,12 @@ func TestC05Generated(t *testing.T) {
 		}
 	}
 
-	// (a) probes: every snippet alone, undecorated, full oracle.
+	// (a) probes: every snippet alone, undecorated, full oracle (first shard only).
 	for _, s := range snippetLib {
+		if shard != 0 {
+			break
+		}
+
 		p := compose([]Snippet{s})
 		evalCase("gen:probe:"+s.Name, []Snippet{s}, p.Src, nil, nil, true)
 		r.Probe("snippet:" + s.Name)
@@ -390,6 +421,10 @@ func TestC05Generated(t *testing.T) {
 
 	// (a') probes of the comment mechanisms (hand-written, deterministic)
 	for _, cp := range commentProbes {
+		if shard != 0 {
+			break
+		}
+
 		o := observe(cp.Src, Auto, RunProgram, env)
 		r.Eval(vh.Hash(cp.Src), o.Accepted)
 		r.Probe("comment:" + cp.Name)
@@ -405,16 +440,40 @@ func TestC05Generated(t *testing.T) {
 		reportFindings(r, o, cp.Src, Auto, RunProgram, env, "", nil, nil, nil, func(Finding) string { return "probe:" + name }, "gen:probe:"+cp.Name, nil)
 	}
 
+	// (a'') probes of string literals whose value holds invisible or control characters
+	for _, sp := range stringProbes() {
+		if shard != 0 {
+			break
+		}
+
+		src := stringProbeProgram(sp.Lit)
+		o := observe(src, Auto, RunProgram, env)
+		r.Eval(vh.Hash(src), o.Accepted)
+		r.Probe("string:" + sp.Name)
+
+		if !o.Accepted {
+			r.Count("probes.string_rejected_by_compiler", 1)
+
+			continue
+		}
+
+		r.Count("sources.accepted", 1)
+		r.Count("probes.string", 1)
+
+		name := sp.Name
+		reportFindings(r, o, src, Auto, RunProgram, env, "", nil, nil, nil, func(Finding) string { return "probe:string:" + name }, "gen:probe:string:"+sp.Name, nil)
+	}
+
 	// (b) single-comment sweep over every snippet: all slots for the formatter
 	// clauses; behaviour on a PRNG-chosen share.
-	rngB := vh.Rand("c05-sweep")
-	perSnippet := vh.N(60, 100000)
+	rngB := vh.Rand("c05-sweep" + sfx)
+	perSnippet := vh.N(60, 1200)
 	behShare := vh.N(8, 4) // 1 in behShare cases gets the full oracle
 
 	classesSeen := map[string]bool{}
 
-	for _, s := range snippetLib {
-		if avoidSn[s.Name] {
+	for si, s := range snippetLib {
+		if avoidSn[s.Name] || si%shards != shard {
 			continue
 		}
 
@@ -432,11 +491,15 @@ func TestC05Generated(t *testing.T) {
 		}
 	}
 
-	r.Count("sweep.slot_classes_seen", int64(len(classesSeen)))
+	if shards > 1 {
+		r.Count("sweep.slot_classes_seen_summed_over_shards", int64(len(classesSeen)))
+	} else {
+		r.Count("sweep.slot_classes_seen", int64(len(classesSeen)))
+	}
 
 	// (c) random compositions, heavy decoration.
-	rng := vh.Rand("c05-random")
-	n := vh.N(350, 12000)
+	rng := vh.Rand("c05-random" + sfx)
+	n := share(vh.N(350, 12000))
 
 	var pool []Snippet
 
@@ -481,8 +544,8 @@ func TestC05Generated(t *testing.T) {
 
 	// (d) programs of the shared generator, when present, through the same decorator.
 	for gi, g := range extraSources {
-		rg := vh.Rand(fmt.Sprintf("c05-langgen-%d", gi))
-		m := vh.N(150, 6000)
+		rg := vh.Rand(fmt.Sprintf("c05-langgen-%d%s", gi, sfx))
+		m := share(vh.N(150, 4000))
 
 		for i, attempts := 0, 0; i < m && attempts < 6*m; attempts++ {
 			src, feats, ok := g(rg)
@@ -541,7 +604,7 @@ func TestC05Generated(t *testing.T) {
 		}
 	}
 
-	if r.Counters["sources.accepted"] == 0 {
+	if r.Counters["sources.accepted"] == 0 && shards == 1 {
 		t.Fatal("observed nothing")
 	}
 
